@@ -4,6 +4,8 @@ import collections
 import contextlib
 import io
 import pickle
+import random
+import sys
 import traceback
 import types
 import warnings
@@ -14,9 +16,10 @@ from pgverif.gen import programs as PG
 from pgverif.monitors import audit
 
 TIERS = {
-    'quick': dict(shards=8, cases=190, sandbox_every=12, exception_value_share=0.08),
+    'quick': dict(shards=8, cases=190, sandbox_every=12, exception_value_share=0.08,
+                  deep_nesting_share=0.03, no_new_variable_share=0.03),
     'thorough': dict(shards=16, cases=6000, sandbox_every=20, exception_value_share=0.06,
-                     timeout_s=3000),
+                     deep_nesting_share=0.02, no_new_variable_share=0.02, timeout_s=3000),
 }
 RULE = ('case = one generated program (recursive generator over all statement and '
         'expression kinds, depth 1-4, rendered as text; 4% are non-Python texts; 12% '
@@ -38,7 +41,27 @@ RULE = ('case = one generated program (recursive generator over all statement an
         'whose values are exception objects or classes (builtin, user-defined '
         'picklable, program-defined; as last value, assigned variable, inside '
         'containers, printed, or really raised) compared in all output modes and '
-        'all ways of executing. Non-trivial = the '
+        'all ways of executing. deep_nesting_share of the cases (and case 2 of every '
+        'shard) are deeply nested programs: a nest of 20-900 levels (unary / binary '
+        'operator chains, attribute / slice / method-call chains, nested lambdas, '
+        'conditional-expression chains, nested displays and calls, elif chains, '
+        'nested if / def / class / for / while / with / try blocks, a statement '
+        'nest holding an expression nest) with a harmless atom or a gated construct '
+        'at the bottom, as right-hand side, expression statement, argument, return '
+        'value or condition, anywhere in the program; only programs that plain '
+        'compile + exec under the default recursion limit handles (and whose syntax '
+        'tree stays 100 levels below CPython\'s own limit) are in the class; they '
+        'must be refused (required set minus one flag, empty set) resp. executed like '
+        'plain exec (exact set, ALL; three output modes) with the permission given as '
+        'argument, scope or both; a deviation is attributed to the depth when the '
+        'same shape at depth 3 is handled correctly under the same configuration. '
+        'no_new_variable_share of the cases (and case 3 of every shard) are programs '
+        'whose last statement has no value (pass, del, loop, condition, try, with, '
+        'global, assert, match) and that leave no new variable behind (they read, '
+        'print, mutate given objects, re-bind given globals, delete what they '
+        'define), in all output modes and ways of executing: for every program whose '
+        'last statement has no value the result / __result__ must be None or the '
+        'value of a variable that plain exec leaves behind. Non-trivial = the '
         'program has at least two different gated construct classes or nesting '
         'depth >= 2 and was both refused and executed at least once; distinct by '
         'program text.')
@@ -46,13 +69,25 @@ REQUIRED_COUNTERS = ['must_refuse_checks', 'must_accept_checks', 'differential_r
                      'error_reports_ok', 'error_position_checks_with_intermediate_lines',
                      'audit_exec_events', 'refused_without_exec', 'scope_checks',
                      'scope_with_timeout_checks', 'forked_refusal_checks',
-                     'forked_differential_runs', 'exception_value_results_compared']
+                     'forked_differential_runs', 'exception_value_results_compared',
+                     'deep_nesting_checks', 'deep_nesting_over_300_levels_checks',
+                     'valueless_last_statement_results_checked',
+                     'valueless_no_new_variable_results_checked']
 ASSUMPTIONS = [
     'CPython exec() of the same text with the same globals is the reference',
     'sys.addaudithook sees every exec()/eval() of a code object; the probe object sees the first statement',
     'must-gate node classes: Assign AugAssign AnnAssign NamedExpr / If Match / For While AsyncFor / Call / Try TryStar Raise Assert / ClassDef / FunctionDef AsyncFunctionDef Lambda / Import ImportFrom',
     'don\'t-care (either outcome accepted, but never partial execution): IfExp, comprehensions, with, del, global/nonlocal, await, f-strings, decorators, return/yield',
-    '__result__ is compared only when the last statement is an expression or an assignment to plain names',
+    '__result__ is compared for equality only when the last statement is an expression or an assignment to plain names',
+    'when the last statement has no value (anything but an expression or an assignment: pass, del, def, class, import, '
+    'compound statements, ...) the result is not documented beyond "no code -> None" and the library\'s own tests '
+    '(a trailing def / class gives that function / class): None or the value of any variable that plain exec leaves '
+    'behind is accepted, any other object (one that plain execution never exposes) is a violation; '
+    'a trailing augmented assignment is left open',
+    'deeply nested programs: the reference is ast.parse + compile + exec under the default recursion limit '
+    '(sys.getrecursionlimit() == 1000, checked at every library call); a text CPython itself rejects (SyntaxError, '
+    'RecursionError, MemoryError) or whose syntax tree is deeper than 1400 levels (CPython gives up near 1497) is '
+    'outside the class; harness code that walks syntax trees is iterative',
     'an inner permission scope is not required to narrow (documented: outermost scope wins); an argument or scope may never widen the enclosing scope',
     'permission=None without a scope is not a permission set and is not exercised',
     'run / maybe_sandbox_call(evaluate) / sandbox_call(evaluate) are ways of executing the same evaluation: '
@@ -69,6 +104,10 @@ ALL = 0
 for _f in FLAGS:
   ALL |= _f.value
 REF = '<c19-reference>'
+DEFAULT_RECURSION_LIMIT = 1000
+# CPython (3.12) gives up on syntax trees of about 1497 levels whatever the
+# Python stack depth; deeper than this margin is "outside the class".
+AST_DEPTH_MARGIN = 1400
 
 A, C, L, K, X, CD, FD, IM = (f.value for f in FLAGS)
 MUST = {
@@ -101,10 +140,20 @@ class Info:
     self.depth = 0
     self.pairs = set()
     self.nodes = 0
-    self._walk(self.tree, 0, 'Module')
+    self.ast_depth = 0         # levels of the syntax tree (all node classes)
+    # iterative pre-order walk (a deep tree must not exhaust the stack here)
+    stack = [(self.tree, 0, 'Module', 1)]
+    while stack:
+      node, depth, parent, level = stack.pop()
+      if level > self.ast_depth:
+        self.ast_depth = level
+      depth, parent = self._visit(node, depth, parent)
+      children = list(ast.iter_child_nodes(node))
+      for ch in reversed(children):
+        stack.append((ch, depth, parent, level + 1))
     self.last = self.tree.body[-1] if self.tree.body else None
 
-  def _walk(self, node, depth, parent):
+  def _visit(self, node, depth, parent):
     name = type(node).__name__
     self.nodes += 1
     if name in MUST:
@@ -123,8 +172,7 @@ class Info:
       depth += 1
       self.depth = max(self.depth, depth)
       parent = name
-    for ch in ast.iter_child_nodes(node):
-      self._walk(ch, depth, parent)
+    return depth, parent
 
   def last_kind(self):
     """(class of the last statement, is `__result__` defined by the documentation)."""
@@ -190,9 +238,11 @@ class Ref:
     self.result_defined = defined
     if kind == 'Expr':
       last = tree.body[-1]
-      new = ast.Assign(targets=[ast.Name('__ref_result__', ast.Store())], value=last.value)
+      # (locations are copied node by node: ast.fix_missing_locations recurses
+      # over the whole tree, which may be very deep)
+      target = ast.copy_location(ast.Name('__ref_result__', ast.Store()), last)
+      new = ast.Assign(targets=[target], value=last.value)
       tree.body[-1] = ast.copy_location(new, last)
-      ast.fix_missing_locations(tree)
     self.codeobj = compile(tree, REF, 'exec')      # SyntaxError -> not a valid program
     probe = PG.Probe()
     g = fresh_globals(probe)
@@ -287,6 +337,8 @@ def call_lib(code, kind, arg=None, outer=None, inner=None, mode='result',
   o = Outcome()
   name, sandbox, timeout = entry
   forked = is_forked(entry)
+  if sys.getrecursionlimit() != DEFAULT_RECURSION_LIMIT:
+    raise RuntimeError('the library must be called under the default recursion limit')
   probe = audit.FdProbe() if forked else PG.Probe()
   g = fresh_globals(probe)
   kwargs = dict(global_vars=g)
@@ -510,6 +562,8 @@ def observe(c, info, ref, kind, arg, outer, inner, mode, entry, differential, st
   c['differential_ok_runs'] += 1
   special = last_kind in ('AugAssign', 'AnnAssign', 'Assign-non-name-target')
   state_mech = last_mech if special else 'globals'
+  # the last statement has no value: see valueless_problem
+  valueless = not defined and not special and info.last is not None
   # values that went through a pickle are compared when the reference values
   # survive one (in-process runs: always)
   comparable = (not forked) or ref.transportable(mode)
@@ -523,6 +577,8 @@ def observe(c, info, ref, kind, arg, outer, inner, mode, entry, differential, st
       if norm(o.value) != ref.result:
         problems.append(('result-differs', last_mech,
                          f'plain exec: {ref.result!r:.200}; library: {norm(o.value)!r:.200}', sfx))
+    elif valueless and comparable:
+      problems.extend(valueless_problem(c, o.value, None, ref, last_kind, 'result', sfx))
   elif mode == 'stdout':
     c['stdout_compared'] += 1
     if o.value != ref.stdout:
@@ -545,6 +601,9 @@ def observe(c, info, ref, kind, arg, outer, inner, mode, entry, differential, st
       if defined and norm(res) != ref.result:
         problems.append(('result-differs', last_mech,
                          f'plain exec: {ref.result!r:.200}; library __result__: {norm(res)!r:.200}', sfx))
+      if valueless:
+        problems.extend(valueless_problem(c, res, None if forked else out, ref, last_kind,
+                                          '__result__', sfx))
       got = {k: norm(v) for k, v in out.items()}
       if got != ref.outputs:
         diff = sorted(k for k in set(got) | set(ref.outputs) if got.get(k) != ref.outputs.get(k))
@@ -564,6 +623,34 @@ def observe(c, info, ref, kind, arg, outer, inner, mode, entry, differential, st
       problems.append(('intermediates-differ', 'execution-count',
                        f'the probe was read {o.hits} times, by plain exec {ref.hits} times', sfx))
   return o, problems
+
+
+def valueless_problem(c, value, own_outputs, ref, last_kind, what, sfx):
+  """The result of a program whose last statement has no value.
+
+  Documented: the result is "the value of the last line", "no code -> None";
+  the library's tests add that a trailing `def f` / `class A` gives f / A (the
+  last variable defined).  So None and the value of any variable that plain
+  execution leaves behind are accepted; any other object - one that plain
+  execution of the text never exposes, such as the namespace of builtins that
+  exec() adds to the globals - is not a result of the program.  own_outputs:
+  the variables the same (in-process) run reports, among which a non-None
+  `__result__` must be found by identity."""
+  c['valueless_last_statement_results_checked'] += 1
+  if not ref.outputs:
+    c['valueless_no_new_variable_results_checked'] += 1
+  if value is None:
+    return []
+  n = norm(value)
+  if any(n == m for m in ref.outputs.values()):
+    if own_outputs is None or any(value is v for v in own_outputs.values()):
+      return []
+    return [('result-differs', 'last-statement-has-no-value',
+             f'last statement {last_kind}: library {what} {n!r:.200} equals a variable of the program '
+             f'but is none of the objects reported as its variables', sfx)]
+  return [('result-differs', 'last-statement-has-no-value',
+           f'last statement {last_kind}: plain exec leaves the variables {ref.outputs!r:.200}; '
+           f'library {what}: {n!r:.200} (neither None nor the value of one of them)', sfx)]
 
 
 def check_one(ctx, info, ref, kind, arg=None, outer=None, inner=None,
@@ -740,8 +827,184 @@ def run_exception_values(ctx, i, tag=None):
                 'reference': 'raises ' + ref.error[0] if ref.error else 'completes'})
 
 
+def check_deep(ctx, info, ref, small, shape, kind, arg=None, outer=None, inner=None,
+               mode='result', entry=E_EVAL, differential=False, stats=None):
+  """check_one for a deeply nested program.
+
+  What is wrong is attributed to the depth (mechanism `deep-nesting`, clause
+  as judged) when the same shape at depth 3, under the same configuration and
+  way of executing, does not show it; what the control shows as well is not
+  due to the depth and is reported for the control program as for any
+  ordinary program (ordinary keys)."""
+  c = ctx.counters
+  sp = []
+  o, problems = observe(c, info, ref, kind, arg, outer, inner, mode, entry, differential,
+                        stats, sp)
+  c['deep_nesting_checks'] += 1
+  if info.ast_depth > 300:
+    c['deep_nesting_over_300_levels_checks'] += 1
+  if problems:
+    c['deep_nesting_controls_at_depth_3'] += 1
+    s_info, s_ref = small
+    same = (s_info.must, s_info.maybe) == (info.must, info.maybe)
+    _, control = observe(collections.Counter(), s_info, s_ref, kind, arg, outer, inner, mode,
+                         entry, differential)
+    if not same:
+      c['deep_nesting_problems_not_due_to_depth'] += 1
+      return check_one(ctx, info, ref, kind, arg, outer, inner, mode, entry, differential)
+    if control:
+      c['deep_nesting_problems_not_due_to_depth'] += 1
+      check_one(ctx, s_info, s_ref, kind, arg, outer, inner, mode, entry, differential)
+      shown = {(p_[0], p_[1]) for p_ in control}
+      problems = [p_ for p_ in problems if (p_[0], p_[1]) not in shown]
+  witness = {'program': info.code, 'config': fmt_cfg(kind, arg, outer, inner, mode, entry),
+             'nesting': {k: shape[k] for k in ('family', 'kind', 'depth', 'bottom') if k in shape},
+             'syntax_tree_levels': info.ast_depth}
+  if outer is not None:
+    c['scope_checks'] += 1
+    for clause, mech, detail in sp:
+      ctx.violation(clause, mech, detail, witness)
+  seen = set()
+  for clause, _, detail, _ in problems:
+    if clause not in seen:
+      seen.add(clause)
+      ctx.violation(clause, 'deep-nesting',
+                    detail + f' [syntax tree of {info.ast_depth} levels; not so for the same shape '
+                    'at depth 3 under the same configuration]', witness)
+  return o
+
+
+def run_deep_nesting(ctx, i, big=False):
+  """A deeply nested program: refused / executed whatever the depth."""
+  rng, c = ctx.rng, ctx.counters
+  info = ref = None
+  for _ in range(6 if big else 1):
+    code, small_code, shape = XP.deep_nesting_program(rng, big)
+    c['deep_nesting_generated'] += 1
+    try:
+      info = Info(code)
+      if info.ast_depth > AST_DEPTH_MARGIN:
+        raise RecursionError('too close to the limit of CPython itself')
+      ref = Ref(info)
+      break
+    except (SyntaxError, RecursionError, MemoryError) as e:
+      # CPython itself does not take this text: outside the class
+      c['deep_nesting_skipped_reference_limit'] += 1
+      c['deep_nesting_skipped:' + type(e).__name__] += 1
+      info = ref = None
+  if ref is None:
+    return
+  s_info = Info(small_code)
+  small = (s_info, Ref(s_info))
+  c['programs'] += 1
+  c['programs_deep_nesting'] += 1
+  c['programs_raising' if ref.error else 'programs_completing'] += 1
+  c[f'deep_nesting:{shape["family"]}:{shape["kind"]}'] += 1
+  c['deep_nesting_levels:' + ('20-100' if info.ast_depth <= 100 else '101-300' if info.ast_depth <= 300
+                              else '301-600' if info.ast_depth <= 600 else '601-1400')] += 1
+  c['deep_nesting_bottom:' + ('gated' if info.must else 'harmless')] += 1
+  c['last:' + info.last_kind()[0]] += 1
+  stats = {'refused': 0, 'executed': 0}
+  modes = ['result', 'stdout', 'inter']
+  exact = info.must | info.maybe
+  args = (ctx, info, ref, small, shape)
+
+  # must accept: the exact set and ALL, every output mode, differential
+  for s_ in ([exact] if exact != ALL else []) + [ALL]:
+    for mode in modes:
+      check_deep(*args, 'arg', arg=s_, mode=mode, differential=True, stats=stats)
+  check_deep(*args, 'scope', outer=exact, mode=rng.choice(modes), entry=inproc_entry(rng),
+             differential=True, stats=stats)
+  check_deep(*args, 'scope+arg', mode=rng.choice(modes), entry=rng.choice(INPROC_ALT),
+             differential=True, stats=stats, **supply(rng, 'scope+arg', exact))
+  # must refuse: the required set minus one flag, the empty set
+  if info.must:
+    flags = [f.value for f in FLAGS if info.must & f.value]
+    rng.shuffle(flags)
+    for k, f in enumerate(flags[:3]):
+      check_deep(*args, 'arg', arg=exact & ~f, mode=modes[k % 3], stats=stats)
+      check_deep(*args, 'arg', arg=ALL & ~f, mode=rng.choice(modes),
+                 entry=rng.choice(INPROC_ALT), stats=stats)
+    f = flags[0]
+    check_deep(*args, 'scope', outer=exact & ~f, mode=rng.choice(modes), entry=inproc_entry(rng),
+               stats=stats)
+    check_deep(*args, 'scope+arg', mode=rng.choice(modes), entry=inproc_entry(rng), stats=stats,
+               **supply(rng, 'scope+arg', exact, f))
+    check_deep(*args, 'arg', arg=0, mode=rng.choice(modes), stats=stats)
+    check_deep(*args, 'scope', outer=0, mode=rng.choice(modes), stats=stats)
+  if (len(info.classes) >= 2 or info.depth >= 2) and stats['refused'] and stats['executed']:
+    ctx.mark_nontrivial(code)
+  if c['deep_nesting_samples'] < 1:
+    c['deep_nesting_samples'] += 1
+    ctx.sample({'program': code if len(code) < 600 else code[:300] + ' ... ' + code[-200:],
+                'nesting': {k: v for k, v in shape.items() if k != 'sub'},
+                'syntax_tree_levels': info.ast_depth,
+                'required': repr(P(info.must)),
+                'reference': 'raises ' + ref.error[0] if ref.error else 'completes'})
+
+
+def run_no_new_variable(ctx, i):
+  """A program that ends in a statement without value and leaves no new variable."""
+  rng, c = ctx.rng, ctx.counters
+  code, tail = XP.no_new_variable_program(rng)
+  info = Info(code)
+  try:
+    ref = Ref(info)
+  except SyntaxError:
+    c['skipped_not_compilable'] += 1
+    return
+  c['programs'] += 1
+  c['programs_no_new_variable'] += 1
+  c['no_new_variable:' + tail] += 1
+  c['programs_raising' if ref.error else 'programs_completing'] += 1
+  c['last:' + info.last_kind()[0]] += 1
+  stats = {'refused': 0, 'executed': 0}
+  modes = ['result', 'stdout', 'inter']
+  exact = info.must | info.maybe
+  for s_ in ([exact] if exact != ALL else []) + [ALL]:
+    for mode in modes:
+      check_one(ctx, info, ref, 'arg', arg=s_, mode=mode, differential=True, stats=stats)
+  for mode in ('result', 'inter', rng.choice(modes)):
+    kind = rng.choice(KINDS)
+    check_one(ctx, info, ref, kind, mode=mode, entry=rng.choice(INPROC_ALT),
+              differential=True, stats=stats, **supply(rng, kind, exact))
+  if c['programs_no_new_variable'] % 4 == 1:
+    # forked ways of executing: the result has to be sent back
+    for mode in ('result', 'inter'):
+      kind = rng.choice(KINDS)
+      check_one(ctx, info, ref, kind, mode=mode, entry=forked_entry(rng),
+                differential=True, stats=stats, **supply(rng, kind, exact))
+  if info.must:
+    kind = rng.choice(KINDS)
+    lacking = rng.choice([f.value for f in FLAGS if info.must & f.value])
+    check_one(ctx, info, ref, kind, mode=rng.choice(modes), entry=inproc_entry(rng),
+              stats=stats, **supply(rng, kind, exact, lacking))
+  if (len(info.classes) >= 2 or info.depth >= 2) and stats['refused'] and stats['executed']:
+    ctx.mark_nontrivial(code)
+  if c['no_new_variable_samples'] < 1:
+    c['no_new_variable_samples'] += 1
+    ctx.sample({'program': code, 'leaves': tail, 'variables_after_plain_exec': sorted(ref.outputs),
+                'reference': 'raises ' + ref.error[0] if ref.error else 'completes'})
+
+
 def run_case(ctx, i):
   rng, c = ctx.rng, ctx.counters
+  # The two classes below are chosen by a stream of their own, so that the
+  # programs of all other cases do not depend on their shares.  In every run,
+  # whatever the seed: one (large) deeply nested program and one program that
+  # leaves no new variable per shard.
+  r2 = random.Random(f'C19-classes/{ctx.seed}/{ctx.shard}/{i}/').random()
+  deep_share = ctx.params.get('deep_nesting_share', 0.03)
+  if i == 2 or r2 < deep_share:
+    try:
+      return run_deep_nesting(ctx, i, big=(i == 2))
+    except RecursionError:
+      # harness code ran out of stack on a deep program: the case decides nothing
+      c['deep_nesting_harness_recursion_errors'] += 1
+      ctx.notes['deep_nesting_harness_recursion_error'] = traceback.format_exc()[-1500:]
+      return None
+  if i == 3 or r2 < deep_share + ctx.params.get('no_new_variable_share', 0.03):
+    return run_no_new_variable(ctx, i)
   if rng.random() < 0.04:
     return run_invalid(ctx, i)
   if i == 1 and ctx.shard % 3 == 0:
